@@ -1,11 +1,14 @@
 (* The textX instance of the checker soundness theorem: depends on the generated parser tables
    (Gen/SrcLangPeg.v, Gen/SrcTxPeg.v), so it is re-proved whenever the source under test changes,
    while the general proofs in Proofs/PegEquivProofs.v are not rebuilt. *)
-From TxV Require Import Core.Base Model.PegSyntax Model.Peg Model.PegEquiv Proofs.PegEquivProofs.
+From TxV Require Import Core.Base Model.PegSyntax Model.Peg Proofs.PegProofs Model.PegEquiv Proofs.PegEquivProofs.
 From TxV Require Import Gen.SrcLangPeg Gen.SrcTxPeg.
 
 Definition textx_R : list (nat * nat * bool) :=
   reach_all lang_grammar tx_grammar (seeds_of lang_labels tx_labels textx_seeds).
+
+(* oracle ids of the regular expressions assumed never to match the empty string *)
+Definition textx_ne : list nat := ne_of lang_oracles textx_nonempty_patterns.
 
 Definition accepted_pair (p : nat * nat * bool) : bool :=
   match p with
@@ -15,18 +18,23 @@ Definition accepted_pair (p : nat * nat * bool) : bool :=
 (* every pair of the traversal passes the local check or is an accepted difference *)
 Lemma textx_pairs :
   frame_ok lang_grammar tx_grammar textx_R = true /\
-  forallb (fun p => local_ok lang_grammar tx_grammar textx_R p || accepted_pair p) textx_R = true.
+  forallb (fun p => local_ok lang_grammar tx_grammar textx_ne textx_R p || accepted_pair p) textx_R = true.
 Proof. vm_compute. split; reflexivity. Qed.
 
 Theorem textx_modulo_accepted input orc :
-  (forall p, In p textx_R -> accepted_pair p = true -> sem_ok lang_grammar tx_grammar input orc p) ->
+  orc_nonempty textx_ne orc ->
+  (forall p, In p textx_R -> accepted_pair p = true -> sem_ok lang_grammar tx_grammar textx_ne input orc p) ->
   forall cfg f1 f2,
   outcome_rel (run lang_grammar cfg orc false f1 input) (run tx_grammar cfg orc false f2 input).
 Proof.
-  intros H cfg f1 f2. destruct textx_pairs as [F A].
-  apply (rel_sound lang_grammar tx_grammar textx_R input orc F).
+  intros Hne H cfg f1 f2. destruct textx_pairs as [F A].
+  apply (rel_sound lang_grammar tx_grammar textx_ne textx_R input orc Hne F).
   intros p HIn. rewrite forallb_forall in A. specialize (A p HIn). apply orb_true_iff in A as [A|A].
   - left. exact A.
   - right. apply H; assumption.
 Qed.
 
+(* memoization: both tables have a comment model, so they are outside the class of C19's theorem *)
+Lemma textx_not_ctx_constant :
+  PegProofs.ctx_constant lang_grammar = false /\ PegProofs.ctx_constant tx_grammar = false.
+Proof. vm_compute. split; reflexivity. Qed.
